@@ -177,14 +177,21 @@ def judge(ctx, sc, seed, replay):
     import someip.sd as S
 
     h = Harness(random.Random(seed), draw_mode=("const", sc["f"]), max_iterations=100000)
+    import zlib
+    late_cfg = zlib.crc32(repr(sc["filters"]).encode()) % 2 == 0
     tm = net.timings(INITIAL_DELAY_MIN=sc["window"][0], INITIAL_DELAY_MAX=sc["window"][1], REPETITIONS_MAX=sc["reps"],
-                     REPETITIONS_BASE_DELAY=sc["base"], FIND_TTL=sc["find_ttl"])
+                     REPETITIONS_BASE_DELAY=sc["base"], FIND_TTL=sc["find_ttl"] + 4 if late_cfg else sc["find_ttl"])
     prot, tr = net.make_sd(h.loop, ("10.0.9.100", 30490), timings=tm)
     listener = S.ClientServiceListener()
 
     def setup():
         for fl in sc["filters"]:
             prot.discovery.watch_service(net.client_filter(C, fl), listener)
+        if late_cfg:
+            # the application tunes the timings by assigning the fields after it has registered what it watches (create_endpoints
+            # takes no timings, so assignment is the only way there): what is sent later uses the values in force then
+            prot.timings.FIND_TTL = sc["find_ttl"]
+            ctx.count("find_ttl_assigned_after_the_filters_were_registered")
 
     if sc.get("late_watch"):
         h.at(sc["s0"], lambda: (prot.discovery.start(), setup()))
